@@ -380,4 +380,22 @@ Section Tie.
     - lra.
     - rewrite Hn in *. field. exact Hn0.
   Qed.
+  (* in BOTH branches (also inside the miscibility gap, where the stored fractions are those of the gap end-member)
+     the stored activity coefficients are the Guggenheim expressions of the STORED mole fractions *)
+  Lemma ss_binary_lambda_of_stored_fractions : forall e,
+      e "LOG_10" <> 0 -> e "ss_ptr.total_moles" <> 0 ->
+      wp ss_binary_body e (fun e1 _ =>
+        let x0 := e1 "ss_ptr.ss_comps[0].fraction_x" in
+        let x1 := e1 "ss_ptr.ss_comps[1].fraction_x" in
+        (x0 = 1 - x1 \/ (x0 = e "ss_ptr.ss_comps[0].moles" / e "ss_ptr.total_moles"
+                         /\ x1 = e "ss_ptr.ss_comps[1].moles" / e "ss_ptr.total_moles")) /\
+        e1 "ss_ptr.ss_comps[0].log10_lambda" * e "LOG_10" = gugg1 (e "ss_ptr.a0") (e "ss_ptr.a1") x1 /\
+        e1 "ss_ptr.ss_comps[1].log10_lambda" * e "LOG_10" = gugg2 (e "ss_ptr.a0") (e "ss_ptr.a1") x0 x1).
+  Proof.
+    intros e HL Hn. apply sym_sound0.
+    set (t := sym ss_binary_body []). vm_compute in t. subst t.
+    unfold tden, gugg1, gugg2. cbn [tdenS]. split; intro H; unfold apply; cbn; q2r.
+    - repeat split; [left; lra | field; auto | field; auto].
+    - repeat split; [right; split; reflexivity | field; auto | field; auto].
+  Qed.
 End Tie.
